@@ -102,3 +102,14 @@ FLAGS = [Perm]  # oracle only: Perm(99) is a pseudo-member, not a ValueError, so
 EXCS = [AppError, Outer2.DeepError, TimeoutError, ConnectionError]
 OBJS = [Money, Outer3.Box]
 BUILTIN_EXCS = [ValueError, KeyError, RuntimeError, TypeError, ZeroDivisionError, LookupError]
+
+
+class Node:
+    """a tree node that knows its parent (a value with BACK-references: doubly linked structures, ORM-like objects)"""
+
+    def __init__(self, name: str, parent: "Node | None" = None):
+        self.name = name
+        self.parent = parent
+        self.children: list = []
+        if parent is not None:
+            parent.children.append(self)
